@@ -241,6 +241,135 @@ Example C03_note_own_heartbeat_refused_at_cap :
   last (snd (gossip_run ex_recover ex_keccak ex_dec (fun _ => true) false ninit ms)) [] = [OwnPanic].
 Proof. vm_compute. reflexivity. Qed.
 
+(* ================================================================== extension X5: the receive / dispatch loop of p2p.Run
+   model.P2PVerify.p2p_dispatch = one iteration of `for { sub.Next; proto.Unmarshal; loopback test; switch }`, loop_run = any
+   interleaving of iterations with guardian-set changes, locally originated requests, cleanup ticks and own heartbeats.
+   harness/p2p_run executes the real loop (working tree's p2p.go, transport swapped) and every recorded history is re-evaluated
+   with loop_run inside Coq.  O / V = whatever the loop hands on to the processor without looking at it. *)
+
+(* an envelope that does not decode, carries none of the four message types, or was published by the node itself changes nothing *)
+Theorem C03_loop_ignored : forall recover keccak decode_hb decode_req (O V : Type) disable self st from (m : gossip_msg O V),
+  m = MInvalid \/ m = MUnknown \/ from = self ->
+  loop_step recover keccak decode_hb decode_req disable self st (LRecv from m) = (st, []).
+Proof. intros. apply loop_step_ignored. assumption. Qed.
+
+(* one iteration does exactly one of five things (nothing else has any effect): nothing | observation handed on | VAA handed on |
+   request forwarded after passing the request verifier under the set in force | heartbeat stored after the heartbeat verifier
+   accepted it under the set in force *)
+Theorem C03_loop_iteration_classified : forall recover keccak decode_hb decode_req (O V : Type) disable self t gs from (m : gossip_msg O V),
+  let r := p2p_dispatch recover keccak decode_hb decode_req disable self t gs from m in
+  r = (t, []) \/
+  (exists o, m = MObservation o /\ from <> self /\ r = (t, [OutObs o])) \/
+  (exists v, m = MSignedVaa v /\ from <> self /\ r = (t, [OutVaa v])) \/
+  (exists eaddr req sig g a, m = MObsReq eaddr req sig /\ from <> self /\ gs = Some g /\ r = (t, [OutReq req]) /\ decode_req req = true /\
+     a = bytes_to_address eaddr /\ In a g /\ 32 < Z.of_nat (length (p2p_req_preimage req)) /\
+     P2PVerify.prec recover (keccak (p2p_req_preimage req)) sig = Some a) \/
+  (exists eaddr hb sig g t' v, m = MHeartbeat eaddr hb sig /\ from <> self /\ gs = Some g /\ r = (t', []) /\
+     process_heartbeat recover keccak decode_hb g t from eaddr hb sig (p2p_loop_hb_disable disable) = (t', HOk v)).
+Proof.
+  intros recover keccak decode_hb decode_req O V disable self t gs from m r. subst r.
+  destruct (dispatch_classified recover keccak decode_hb decode_req disable self t gs from m)
+    as [|o Em Hn|v Em Hn|eaddr r0 sig g a Em Hn Eg (H1 & H2 & H3 & _ & H5) Hd|eaddr hb sig g t' v Em Hn Eg Ep].
+  - left. reflexivity.
+  - right; left. exists o. auto.
+  - right; right; left. exists v. auto.
+  - right; right; right; left. exists eaddr, r0, sig, g, a. auto 12.
+  - right; right; right; right. exists eaddr, hb, sig, g, t', v. auto 10.
+Qed.
+
+(* the verification flag the loop hands to the heartbeat verifier is Run's disableHeartbeatVerify parameter, nothing else *)
+Theorem C03_loop_heartbeat_flag : forall f, p2p_loop_hb_disable f = f.
+Proof. exact loop_hb_flag_is_parameter. Qed.
+
+(* over EVERY sequence of events: a request on obsvReqC was originated locally or came from another peer and passed the request
+   verifier under the guardian set in force at that moment *)
+Theorem C03_loop_requests_only_verified : forall recover keccak decode_hb decode_req (O V : Type) disable self (es : list (levent O V)) i outs r,
+  nth_error (snd (loop_run recover keccak decode_hb decode_req disable self ninit es)) i = Some outs -> In (OutReq r) outs ->
+  nth_error es i = Some (LLocalReq r) \/
+  exists from eaddr sig gs a, nth_error es i = Some (LRecv from (MObsReq eaddr r sig)) /\ from <> self /\
+    n_gs (fst (loop_run recover keccak decode_hb decode_req disable self ninit (firstn i es))) = Some gs /\
+    a = bytes_to_address eaddr /\ In a gs /\ 32 < Z.of_nat (length (p2p_req_preimage r)) /\
+    P2PVerify.prec recover (keccak (p2p_req_preimage r)) sig = Some a /\ decode_req r = true.
+Proof.
+  intros recover keccak decode_hb decode_req O V disable self es i outs r Hn Hin.
+  destruct (loop_requests_only_verified recover keccak decode_hb decode_req disable self es i outs r Hn Hin)
+    as [H|(from & eaddr & sig & gs & a & H1 & H2 & H3 & (H4 & H5 & H6 & _ & H8) & H9)]; [left; exact H|].
+  right. exists from, eaddr, sig, gs, a. auto 12.
+Qed.
+
+(* over EVERY sequence of events, verification enabled: an entry of the heartbeat table is one of the node's own heartbeats or was
+   put there by an envelope from another peer, validly signed under the heartbeat prefix by a member of the set in force when it
+   was dispatched, and sits under that member's address and the sending peer *)
+Theorem C03_loop_table_provenance : forall recover keccak decode_hb decode_req (O V : Type) self (es : list (levent O V)) a row p v,
+  tl_get a (n_tbl (fst (loop_run recover keccak decode_hb decode_req false self ninit es))) = Some row -> tl_get p row = Some v ->
+  exists pe e po, es = pe ++ e :: po /\
+    (e = LOwn a p v \/
+     exists eaddr sig gs, e = LRecv p (MHeartbeat eaddr (hv_payload v) sig) /\ p <> self /\
+       n_gs (fst (loop_run recover keccak decode_hb decode_req false self ninit pe)) = Some gs /\
+       decode_hb (hv_payload v) = Some (hv_ts v) /\
+       a = bytes_to_address eaddr /\ In a gs /\ 32 < Z.of_nat (length (p2p_hb_preimage (hv_payload v))) /\
+       P2PVerify.prec recover (keccak (p2p_hb_preimage (hv_payload v))) sig = Some a).
+Proof.
+  intros recover keccak decode_hb decode_req O V self es a row p v Hg Hp.
+  destruct (loop_table_provenance recover keccak decode_hb decode_req false self es a row p v (loop_hb_flag_is_parameter false) Hg Hp)
+    as (pe & e & po & E & [J|(eaddr & sig & gs & H1 & H2 & H3 & H4 & (H5 & H6 & H7 & _ & H9))]);
+    exists pe, e, po; (split; [exact E|]); [left; exact J|right; exists eaddr, sig, gs; auto 12].
+Qed.
+
+Theorem C03_loop_table_bound : forall recover keccak decode_hb decode_req (O V : Type) disable self (es : list (levent O V)) a row,
+  tl_get a (n_tbl (fst (loop_run recover keccak decode_hb decode_req disable self ninit es))) = Some row -> Z.of_nat (length row) <= gst_max_nodes.
+Proof. intros recover keccak decode_hb decode_req O V. exact (loop_table_bound recover keccak decode_hb decode_req). Qed.
+
+(* what reaches the processor on obsvC / signedInC is exactly what another peer sent: handed on unverified *)
+Theorem C03_loop_passthrough : forall recover keccak decode_hb decode_req (O V : Type) disable self (es : list (levent O V)) i outs,
+  nth_error (snd (loop_run recover keccak decode_hb decode_req disable self ninit es)) i = Some outs ->
+  (forall o, In (OutObs o) outs -> exists from, nth_error es i = Some (LRecv from (MObservation o)) /\ from <> self /\ outs = [OutObs o]) /\
+  (forall v, In (OutVaa v) outs -> exists from, nth_error es i = Some (LRecv from (MSignedVaa v)) /\ from <> self /\ outs = [OutVaa v]).
+Proof. intros recover keccak decode_hb decode_req O V. exact (loop_passthrough recover keccak decode_hb decode_req). Qed.
+
+(* ... and the processor authenticates it itself: an observation the loop handed on (in any state of the loop, with or without a
+   guardian set) that is not a valid member signature leaves the processor as it was (C03_obs_invalid_dropped) *)
+Theorem C03_loop_observation_authenticated_downstream :
+  forall recover keccak decode_hb decode_req sign own gov_chain gov_addr disable self t gs from (o : obs) (pst : pstate),
+  from <> self ->
+  p2p_dispatch (V := bytes) recover keccak decode_hb decode_req disable self t gs from (MObservation o) = (t, [OutObs o]) /\
+  ((~ exists a g, obs_valid recover pst o a g) -> Processor.step recover keccak sign own gov_chain gov_addr pst (Obs o) = (pst, [])).
+Proof.
+  intros recover keccak decode_hb decode_req sign own gc ga disable self t gs from o pst Hn. split.
+  - apply dispatch_obs. exact Hn.
+  - apply C03_obs_invalid_dropped.
+Qed.
+
+(* with no guardian set ever installed nothing but that hand-on happens: no gossip request is forwarded, the table holds only the
+   node's own heartbeats *)
+Theorem C03_loop_no_set : forall recover keccak decode_hb decode_req (O V : Type) disable self (es : list (levent O V)),
+  (forall ks, ~ In (LSetGS ks) es) ->
+  (forall i outs r, nth_error (snd (loop_run recover keccak decode_hb decode_req disable self ninit es)) i = Some outs -> In (OutReq r) outs ->
+     nth_error es i = Some (LLocalReq r)) /\
+  (forall a row p v, tl_get a (n_tbl (fst (loop_run recover keccak decode_hb decode_req disable self ninit es))) = Some row -> tl_get p row = Some v ->
+     In (LOwn a p v) es).
+Proof. intros recover keccak decode_hb decode_req O V. exact (loop_no_set recover keccak decode_hb decode_req). Qed.
+
+(* the own-peer-id test stands in front of the switch in the current source (extractor p2p_loop) *)
+Example C03_loop_loopback_guard_in_source : p2p_loop_loopback_guard = true.
+Proof. reflexivity. Qed.
+
+(* non-vacuity: a concrete loop history.  Before a set is known a valid heartbeat / request does nothing while an observation is
+   handed on; after SetGS [A] the heartbeat is stored, the request forwarded; the same request published by the node itself,
+   an undecodable envelope and an unknown type do nothing; a locally originated request is delivered *)
+Definition ex_self : bytes := ex_peer 77.
+Definition ex_loop : list (levent bytes bytes) :=
+  [LRecv (ex_peer 0) (MHeartbeat ex_A ex_hb (ex_sig ex_A)); LRecv (ex_peer 0) (MObsReq ex_A ex_req (ex_sig ex_A)); LRecv (ex_peer 0) (MObservation [x01]);
+   LSetGS [ex_A];
+   LRecv (ex_peer 0) (MHeartbeat ex_A ex_hb (ex_sig ex_A)); LRecv (ex_peer 1) (MObsReq ex_A ex_req (ex_sig ex_A)); LRecv ex_self (MObsReq ex_A ex_req (ex_sig ex_A));
+   LRecv ex_self (MHeartbeat ex_A ex_hb (ex_sig ex_A)); LRecv (ex_peer 0) MInvalid; LRecv (ex_peer 0) MUnknown; LRecv (ex_peer 1) (MSignedVaa [x02]);
+   LRecv (ex_peer 1) (MObsReq ex_B ex_req (ex_sig ex_B)); LLocalReq [x03]].
+Example C03_example_loop :
+  let r := loop_run ex_recover ex_keccak ex_dec (fun _ => true) false ex_self ninit ex_loop in
+  snd r = [[]; []; [OutObs [x01]]; []; []; [OutReq ex_req]; []; []; []; []; [OutVaa [x02]]; []; [OutReq [x03]]] /\
+  n_tbl (fst r) = [(ex_A, [(ex_peer 0, {| hv_payload := ex_hb; hv_ts := 5 |})])].
+Proof. vm_compute. repeat apply conj; reflexivity. Qed.
+
 Print Assumptions C03_obs_invalid_dropped.
 Print Assumptions C03_obs_effect_only_if_valid.
 Print Assumptions C03_obs_valid_recorded.
@@ -263,3 +392,12 @@ Print Assumptions C03_table_bound.
 Print Assumptions C03_table_provenance.
 Print Assumptions C03_forwarded_request_valid.
 Print Assumptions C03_cleanup_exact.
+Print Assumptions C03_loop_ignored.
+Print Assumptions C03_loop_iteration_classified.
+Print Assumptions C03_loop_heartbeat_flag.
+Print Assumptions C03_loop_requests_only_verified.
+Print Assumptions C03_loop_table_provenance.
+Print Assumptions C03_loop_table_bound.
+Print Assumptions C03_loop_passthrough.
+Print Assumptions C03_loop_observation_authenticated_downstream.
+Print Assumptions C03_loop_no_set.
